@@ -89,7 +89,9 @@ pub struct Reader {
     pub label: &'static str,
     /// expected text = `template` with `{L}` replaced by the locale name
     pub template: &'static str,
-    pub read: Box<dyn Fn() -> String>,
+    /// tracked flavours (`t!`, `t_string!`, `t_display!`) must re-run a reactive computation built around them
+    pub tracked: bool,
+    pub read: std::rc::Rc<dyn Fn() -> String>,
 }
 
 pub struct ViewH {
@@ -117,7 +119,7 @@ fn base<S: Scope<Locale>>(
 
 macro_rules! reader {
     ($label:literal, $template:literal, $read:expr) => {
-        Reader { label: $label, template: $template, read: Box::new($read) }
+        Reader { label: $label, template: $template, tracked: !$label.rsplit(": ").next().unwrap_or("").starts_with("tu"), read: std::rc::Rc::new($read) }
     };
 }
 
